@@ -18,6 +18,25 @@ def load_instances():
         ids.add(i.id)
     return insts
 
+def default_quick_also(i):
+    """secondary properties for which an instance is also part of the quick tier (kept small: the umbrella
+    properties C01 / C02 / C05 would otherwise re-run every kernel of the framework on every change)"""
+    n = i.id
+    if re.match(r"op\.(add|sub|mul|div|mod|and|ior|xor|pop|pus)\.ii$", n): return ["C01", "C02", "C05"]
+    if re.match(r"op\.(div|mul)\.(id|di)\.nv$", n): return ["C01", "C02"]
+    if re.match(r"op\.(band|bior|bxor)\.bb$", n) or re.match(r"op\.(eq|lt)\.(ii|bb)$", n): return ["C01", "C02", "C05"]
+    if re.match(r"fn\.(substr\.sii|substr\.si|chr\.i|hash\.si|int\.d|rtrim\.s|trim\.s|upper\.s|strpos\.ss|neg\.i|m_at\.Ti|m_at\.si)$", n): return ["C01", "C02", "C05", "C03", "C10", "C09"]
+    if n.startswith("capi.accessors"): return ["C01"]
+    if n.startswith("store."): return ["C02", "C01"]
+    if n.startswith("c07.begin.k1") or n.startswith("c07.begin.k3") or n.startswith("c07.begin.k5.c0"): return ["C15", "C01"]
+    if n.startswith("c06.for.step") or n.startswith("c06.for.first.auto") or n.startswith("c06.forall.final"): return ["C01", "C07"]
+    if n.startswith("c11.parsingend"): return ["C02"]
+    if n.startswith("c12.literal"): return ["C10"]
+    if n.startswith("c14.clone") or n.startswith("c16.flags"): return ["C05", "C14"]
+    if n.startswith("c17.refcount.destroy") or n.startswith("c18.utf8") or n.startswith("c08."): return ["C01"]
+    if n.startswith("c06.forall"): return ["C09"]
+    return []
+
 def kf_for(inst, findings):
     return [(k, f) for k, f in enumerate(findings) if any(fnmatch.fnmatch(inst.id, g) for g in f.get("instances", []))]
 
@@ -124,7 +143,13 @@ def check(prop, tier, only=None, extra_checks=None):
     kfdir = V.kf_header(findings)
     rundir = os.path.join(V.OUT, "run", "%s-%s-%d" % (prop, tier, os.getpid()))
     os.makedirs(rundir, exist_ok=True)
-    insts = [i for i in load_instances() if prop in i.props and (tier == "thorough" or i.tier == "quick")]
+    def in_tier(i):
+        if tier == "thorough":
+            return True
+        if i.tier != "quick":
+            return False
+        return i.props[0] == prop or (prop in (i.quick_also if i.quick_also is not None else default_quick_also(i)))
+    insts = [i for i in load_instances() if prop in i.props and in_tier(i)]
     if only:
         insts = [i for i in insts if any(fnmatch.fnmatch(i.id, g) for g in only)]
     say = lambda s: (print(s), sys.stdout.flush())
